@@ -2,7 +2,7 @@
 REG_DRAFT = dict(
     engine='E1-enum',
     technique='bounded-exhaustive enumeration of syntax trees x layouts and of single-token edits (inputs with parse errors), fixed-point oracle on the real formatter; `garden format --check` through the real CLI',
-    text='The C17 space (every tree of the depth-1/depth-2 production sets and the definition-level set under every layout with <=1 / <=2 deviating gaps over an 8-separator alphabet, string-literal content variants; here INCLUDING the layouts the parser rejects or maps to another tree) plus every single-piece deletion, insertion and replacement over an 18-lexeme edit alphabet applied to the canonical text of the representative trees and items (quick) / of every depth-1 tree and every definition item (thorough). Oracle: format(format(s)) == format(s) for every input, in process; `garden format --check <file>` exits 0 on a bounded subset of the distinct formatter outputs (every output of the representative / definition / edit families up to the cap, 16 CLI processes in parallel) and exits 1 on every output the in-process check found unstable. Exhaustive within these bounds.',
+    text='The C17 space with the reduced depth-2 set in both tiers (every tree of the depth-1/depth-2 production sets and the definition-level set under every layout with <=1 / <=2 deviating gaps over an 8-separator alphabet, string-literal content variants; here INCLUDING the layouts the parser rejects or maps to another tree) plus every single-piece deletion, insertion and replacement over an 18-lexeme edit alphabet applied to the canonical text of the representative trees and items (quick) / of every depth-1 tree and every definition item (thorough). Oracle: format(format(s)) == format(s) for every input, in process; `garden format --check <file>` exits 0 on a bounded subset of the distinct formatter outputs (every output of the representative / definition / edit families up to the cap, 16 CLI processes in parallel) and exits 1 on every output the in-process check found unstable. Exhaustive within these bounds.',
     note='The in-process adapter calls the same `format::format` as the CLI; the CLI additionally strips a reftest footer (`// args: ` lines) which the explored alphabet cannot produce. Inputs outside the layout / edit bounds are not covered.',
     design_ref='DESIGN.md §6 C17 / C18',
 )
@@ -95,11 +95,11 @@ def run(ctx):
                 unstable.setdefault(F, sig)
 
     # ---- (1) the layout space of C17, every status
-    for gname, bases, k in c17.base_groups(ctx):
+    for gname, bases, k in c17.base_groups(ctx, full_depth2=False):
         ctx.bound(f"{gname}: programs", len(bases))
         ctx.bound(f"{gname}: max deviating gaps", k)
         pending = []
-        for b, d, t, r, st in layout.explore(ctx, bases, k, ["format"]):
+        for b, d, t, r, st in layout.explore(ctx, bases, k, ["format"], classify=False):
             n_inputs += 1
             n_jobs += 1
             status[st] = status.get(st, 0) + 1
@@ -160,7 +160,7 @@ def run(ctx):
     ctx.outcome("edits: inputs", n_edits)
     ctx.outcome("edits: inputs with parse errors", n_edit_err)
     ctx.outcome("inputs the formatter changed", n_changed)
-    ctx.outcome("distinct formatter outputs", len(cache.d))
+    ctx.outcome("second-pass formatter runs (distinct outputs)", cache.jobs)
     if n_changed == 0 or n_err_inputs == 0 or n_edit_err == 0 or n_edit_err == n_edits:
         raise Machinery(f"vacuous exploration: changed={n_changed} inputs with parse errors={n_err_inputs} edits={n_edits} broken edits={n_edit_err}")
 
